@@ -760,6 +760,21 @@ func c09Gen(r *Rand, tier string) []string {
 			}
 		}
 		rec(nil)
+		// the same over an alphabet with a Unicode separator, a newline, an escape letter and a multi-byte rune,
+		// up to length 6 (optimiser on: the other sweep covers it off)
+		alpha2 := []rune{'{', '}', '"', '\\', ' ', 'n', 0xA0, '\n', 'é'}
+		var rec2 func(cur []rune)
+		rec2 = func(cur []rune) {
+			h := HexS(string(cur))
+			out = append(out, fmt.Sprintf("tpl 1 %s %s %s", h, c09E, c09K))
+			out = append(out, "split "+h)
+			if len(cur) < 6 {
+				for _, c := range alpha2 {
+					rec2(append(append([]rune{}, cur...), c))
+				}
+			}
+		}
+		rec2(nil)
 		// exhaustive UTF-8: every byte string of length <= 2, every string of length 3 / 4 over the boundary bytes
 		bnd := []byte{0x00, 0x41, 0x7f, 0x80, 0x8f, 0x90, 0x9f, 0xa0, 0xbf, 0xc0, 0xc1, 0xc2, 0xdf, 0xe0, 0xe1, 0xec, 0xed, 0xee, 0xef, 0xf0, 0xf1, 0xf3, 0xf4, 0xf5, 0xf7, 0xf8, 0xff}
 		for a := 0; a < 256; a++ {
